@@ -71,10 +71,37 @@ def determinism(nruns, procs, seed):
     return 2 if bad else 0
 
 
+def seeds(nseeds, procs):
+    """No alarm on the unchanged tree for many VERIF_SEED values: quick tier of every check, nseeds seeds."""
+    import cli
+    nseeds = nseeds or 10
+    bad = 0
+    report = {}
+    for pid in cli.CLAIMED:
+        t0 = time.time()
+        fails = []
+        for sd in range(100, 100 + nseeds):
+            envv = dict(os.environ, VERIF_SEED=str(sd), VERIF_EVIDENCE_DIR=os.path.join(VERIF, 'evidence', '_seeds_tmp'),
+                        VERIF_REPLAY_DIR=os.path.join(VERIF, 'replays'))
+            out = subprocess.run([os.path.join(VERIF, 'check'), pid, 'quick'], env=envv, capture_output=True, text=True)
+            if out.returncode != 0:
+                fails.append((sd, out.returncode, [l for l in out.stdout.splitlines() if l.startswith(('violation', 'VIOLATION', 'HARNESS'))][:4]))
+        report[pid] = {'seeds': nseeds, 'non_zero_exits': len(fails)}
+        log('seeds %s: %d seeds, %d non-zero exits %s (%.0fs)' % (pid, nseeds, len(fails), fails[:3], time.time() - t0))
+        bad += len(fails)
+    import shutil
+    shutil.rmtree(os.path.join(VERIF, 'evidence', '_seeds_tmp'), ignore_errors=True)
+    with open(os.path.join(VERIF, 'evidence', 'selftest_seeds.json'), 'w') as f:
+        json.dump(report, f, indent=1, sort_keys=True)
+    return 2 if bad else 0
+
+
 def main(what, nruns, procs, seed):
     rc = 0
     if what in ('env',):
         return env()
+    if what == 'seeds':
+        return seeds(nruns, procs)
     if what in ('determinism', 'all'):
         rc = max(rc, determinism(nruns, procs, seed))
     if what in ('fidelity', 'all'):
